@@ -219,12 +219,10 @@ func (dc *DomConverter) visitElementNodeHandler(node *html.Node) bool {
 		}
 
 		// Figures, pictures and embeds (e.g. a tweet quote) may be put into the output
-		// as a whole, without their descendants being visited: skip the unlikely
-		// candidates inside them now. (The same is done for a data table, once it is
-		// known to be one.)
-		if _, isEmbed := dc.embedTagNames[tagName]; isEmbed {
-			removeUnlikelyDescendants(node)
-		}
+		// as a whole, without their descendants being visited: the unlikely candidates
+		// inside them were taken out before the walk (see Convert). Those inside a
+		// table are still there, a table is classified as the page has it, wherever it
+		// stands; they are skipped once the table is known to be a data table.
 	}
 
 	// Remove DIV, SECTION, and HEADER nodes without any
